@@ -190,6 +190,8 @@ const (
 
 const sendImmediately = int64(1) // stands for quic-go's deadlineSendImmediately
 
+const idleTimeoutNs = int64(30 * time.Second)
+
 type qsim struct {
 	x   *hysim.Run
 	cc  congestion.CongestionControlEx
@@ -207,6 +209,7 @@ type qsim struct {
 	bif        int64
 	nOut       int // "outstanding": ack-eliciting, not an MTU probe
 	nTracked   int
+	nTrackedBeforeEvent int // packets tracked when the most recent ACK / loss-timer processing began
 	largestAck int64
 	largestAckSent int64
 	lossTime   int64
@@ -226,6 +229,7 @@ type qsim struct {
 	mtuWant        int64
 	mtuInFlight    int64 // pn of the probe in flight, -1 if none
 	mtuSize        int64
+	maxWire        int64 // largest datagram put on the wire so far (MTU probes included)
 	pacingDeadline int64
 	wakeAt         int64 // 0 = no timer
 	lateMaxNs      int64
@@ -245,6 +249,11 @@ type qsim struct {
 	burstLeft     int64
 	blackoutUntil int64
 	q             evHeap
+
+	// idle timeout (quic-go closes the connection when nothing was received for MaxIdleTimeout
+	// after the first ack-eliciting packet sent since the last receipt; hysteria's default is 30 s)
+	firstElicAfterIdle int64
+	closed             bool
 
 	// statistics / budget
 	pktsSent   int
@@ -401,6 +410,9 @@ func (s *qsim) transmit(size, data int64, elic, probe, gated bool) int64 {
 	}
 	p := &spkt{size: size, data: data, sent: s.now, elic: elic, probe: probe}
 	if elic {
+		if s.firstElicAfterIdle == 0 {
+			s.firstElicAfterIdle = s.now
+		}
 		s.lastElic = s.now
 		s.bif += size
 		if s.probesToSend > 0 {
@@ -414,6 +426,10 @@ func (s *qsim) transmit(size, data int64, elic, probe, gated bool) int64 {
 	s.hist = append(s.hist, p)
 	s.nTracked++
 	s.pktsSent++
+	s.evSinceAsk++ // a packet sent after the pacing deadline was computed changes the pacer state
+	if size > s.maxWire {
+		s.maxWire = size
+	}
 	s.hooks.onSent(pn, size, gated)
 	s.hooks.afterCall("OnPacketSent")
 	if elic {
@@ -443,7 +459,7 @@ func (s *qsim) toPath(pn, size int64, elic bool) {
 	}
 	start := s.now
 	if s.linkFree > start {
-		backlog := (s.linkFree - start) * s.p.capBps / 1e9
+		backlog := int64(float64(s.linkFree-start) * float64(s.p.capBps) / 1e9)
 		if backlog+size > s.p.queue {
 			s.x.Probe("queue-overflow")
 			return
@@ -605,6 +621,7 @@ func (s *qsim) eventEx(prior int64, acked []congestion.AckedPacketInfo, lost []c
 }
 
 func (s *qsim) receivedAck(upto int, ackDelay int64) {
+	s.firstElicAfterIdle = 0 // a packet was received
 	if upto <= s.ackedUpto {
 		return
 	}
@@ -625,6 +642,7 @@ func (s *qsim) receivedAck(upto int, ackDelay int64) {
 		return
 	}
 	prior := s.bif
+	s.nTrackedBeforeEvent = s.nTracked
 	pk := make([]*spkt, len(newly))
 	for i, pn := range newly {
 		pk[i] = s.get(pn)
@@ -694,6 +712,7 @@ func (s *qsim) setAlarm() {
 func (s *qsim) onLossDetectionTimeout() {
 	defer s.setAlarm()
 	prior := s.bif
+	s.nTrackedBeforeEvent = s.nTracked
 	if s.lossTime != 0 {
 		s.detectLost()
 		s.dbg("loss timer: %d lost", len(s.lostInfo))
@@ -764,6 +783,12 @@ func (s *qsim) receiverGot(pn int64, elic bool) {
 
 // senderIteration is one pass of Conn.run after "something happened" at s.now.
 func (s *qsim) senderIteration(timerFired bool) {
+	if s.firstElicAfterIdle != 0 && s.now >= s.firstElicAfterIdle+idleTimeoutNs {
+		s.closed = true
+		s.x.Probe("idle-timeout-closed")
+		s.dbg("idle timeout: nothing received for 30 s, connection closed")
+		return
+	}
 	pacingWake := timerFired && s.pacingDeadline != 0 && (s.pacingDeadline == sendImmediately || s.pacingDeadline <= s.now)
 	if s.alarm != 0 && s.alarm <= s.now {
 		s.onLossDetectionTimeout()
@@ -785,6 +810,9 @@ func (s *qsim) armTimer() {
 	}
 	if s.alarm != 0 && (d == 0 || s.alarm < d) {
 		d = s.alarm
+	}
+	if s.firstElicAfterIdle != 0 && (d == 0 || s.firstElicAfterIdle+idleTimeoutNs < d) {
+		d = s.firstElicAfterIdle + idleTimeoutNs
 	}
 	if d == 0 {
 		s.wakeAt = 0
@@ -808,7 +836,7 @@ func (s *qsim) armTimer() {
 func (s *qsim) runUntil(tEnd int64) {
 	for guard := 0; ; guard++ {
 		if guard > 5000000 {
-			hysim.HarnessBug("event loop does not terminate")
+			hysim.HarnessBug("event loop does not terminate: now=%d tEnd=%d wakeAt=%d pacingDl=%d alarm=%d lossTime=%d nOut=%d bif=%d pending=%d heap=%d probesToSend=%d ptoCount=%d sent=%d cwnd=%d", s.now, tEnd, s.wakeAt, s.pacingDeadline, s.alarm, s.lossTime, s.nOut, s.bif, s.pending, len(s.q.h), s.probesToSend, s.ptoCount, s.pktsSent, s.cc.GetCongestionWindow())
 		}
 		if s.sched {
 			s.senderIteration(false)
@@ -851,7 +879,7 @@ func (s *qsim) runUntil(tEnd int64) {
 				s.senderIteration(false)
 			}
 		}
-		if s.x.Violated() {
+		if s.x.Violated() || s.exhausted || s.closed {
 			return
 		}
 	}
@@ -943,7 +971,7 @@ func (o *c11) onSent(pn, size int64, gated bool) {
 	}
 	o.tbLast = t
 	o.tbLevel += float64(size)
-	allow := math.Max(float64(c11BurstDgrams*o.s.dgram), c11BurstSecs*R)
+	allow := math.Max(float64(c11BurstDgrams*max(o.s.dgram, o.s.maxWire)), c11BurstSecs*R)
 	if o.tbLevel > allow+1 {
 		o.x.Violate("rate-exceeded", "pacing released more than burst + rate/0.8 x interval: bucket level %.0f bytes > allowance %.0f (rate %d B/s, ceiling %.0f B/s, datagram %d) at packet %d", o.tbLevel, allow, o.bps, R, o.s.dgram, pn)
 	}
@@ -1110,7 +1138,7 @@ func genC11(r *hysim.Rand, tier string) *hysim.Script {
 	sc.Cfg["late_us"] = r.Pick64(0, 0, 30, 1500, 20000)
 	sc.Cfg["skip_period"] = r.Pick64(8, 64, 256)
 	sc.Cfg["rto_call"] = int64(r.Pick(0, 1))
-	sc.Cfg["max_pkts"] = int64(budget * 4)
+	sc.Cfg["max_pkts"] = int64(budget * 8)
 	hard := r.Chance(3, 4) // 1/4 of the runs: no injected loss at all
 	sc.Cfg["hard"] = b2i(hard)
 	sc.Ops = append(sc.Ops, pathOp(r, bps, hard))
@@ -1127,14 +1155,12 @@ func genC11(r *hysim.Rand, tier string) *hysim.Script {
 			sc.Ops = append(sc.Ops, hysim.Op{K: "ackonly", A: []int64{int64(r.Range(1, 20))}})
 		}
 		mode := r.Pick64(0, 0, 0, 1, 2, 3)
+		perPkt := []int64{1280, 640, 20, 1100}[mode] // average bytes per packet in this size mode
 		switch r.Intn(4) {
 		case 0, 1: // bulk
 			n := int(r.LogUniform(1, int64(max(left/2, 2))))
 			left -= n
-			bytes := int64(n) * 1280
-			if mode == 2 {
-				bytes = int64(n) * 20
-			}
+			bytes := int64(n) * perPkt
 			sc.Ops = append(sc.Ops, hysim.Op{K: "app", A: []int64{bytes, mode}})
 			// long enough to send it all, or cut short
 			us := bytes*1_000_000/bps*int64(r.Pick(1, 2, 4))/2 + r.LogUniform(100, 3_000_000)
@@ -1144,14 +1170,14 @@ func genC11(r *hysim.Rand, tier string) *hysim.Script {
 			per := r.Range(1, max(min(left/k, 120), 1))
 			gap := r.Pick64(200_000, 700_000, 1_000_000, 1_300_000, 2_500_000)
 			for i := 0; i < k; i++ {
-				sc.Ops = append(sc.Ops, hysim.Op{K: "app", A: []int64{int64(per) * 1280, mode}})
+				sc.Ops = append(sc.Ops, hysim.Op{K: "app", A: []int64{int64(per) * perPkt, mode}})
 				sc.Ops = append(sc.Ops, hysim.Op{K: "run", A: []int64{gap + r.Int63n(50_000)}})
 			}
 			left -= k * per
 		case 3: // black-out (PTO cascade) in the middle of a transfer
 			n := r.Range(4, max(min(left/2, 200), 4))
 			left -= n
-			sc.Ops = append(sc.Ops, hysim.Op{K: "app", A: []int64{int64(n) * 1280, mode}})
+			sc.Ops = append(sc.Ops, hysim.Op{K: "app", A: []int64{int64(n) * perPkt, mode}})
 			sc.Ops = append(sc.Ops, hysim.Op{K: "run", A: []int64{r.LogUniform(50, 200_000)}})
 			if hard {
 				sc.Ops = append(sc.Ops, hysim.Op{K: "blackout", A: []int64{r.LogUniform(1000, 20_000_000)}})
@@ -1270,6 +1296,9 @@ func execC11(x *hysim.Run) {
 		if x.Violated() {
 			return
 		}
+		if s.exhausted || s.closed {
+			break
+		}
 	}
 	// ---- fault-free tail: the transfer completes
 	s.p.lossPm, s.p.burstPm, s.p.ackLossPm, s.burstLeft, s.blackoutUntil, s.lateMaxNs = 0, 0, 0, 0, 0, 0
@@ -1279,8 +1308,20 @@ func execC11(x *hysim.Run) {
 	left := float64(s.pending + s.bif)
 	limit := int64((20*left/eff + 400*rttMax + 200) * 1e9)
 	tEnd := s.now + limit
-	for !s.done() && s.now < tEnd && !x.Violated() && !s.exhausted {
+	probeStall := false
+	s.runUntil(s.now) // the pass triggered by scheduleSending()
+	for !s.done() && s.now < tEnd && !x.Violated() && !s.exhausted && !s.closed {
 		if len(s.q.h) == 0 && s.wakeAt == 0 && !s.sched {
+			if s.mtuInFlight >= 0 && s.nOut == 0 && s.bif == s.mtuSize && !b.CanSend(congestion.ByteCount(s.bif)) {
+				// FINDING (reproduced against real quic-go, see realcode_mtu_probe_stall_test.go.txt):
+				// a lost path-MTU probe larger than the one-datagram window floor blocks the sender for good.
+				probeStall = true
+				x.Ev("STALL: lost MTU probe of %d bytes is the only packet in flight, window %d, CanSend=false, no PTO is armed for MTU probes", s.mtuSize, b.GetCongestionWindow())
+				if sc.Get("report_probe_stall", 0) == 1 {
+					x.Violate("mtu-probe-stall", "data to send (%d bytes) but the sender is blocked for good: the only packet in flight is a lost path-MTU probe of %d bytes, the window is at its floor of one datagram (%d, srtt %v, rate %d B/s), CanSend(%d) is false, and QUIC arms no PTO for MTU probes", s.pending, s.mtuSize, b.GetCongestionWindow(), rtt.smoothed, bps, s.bif)
+				}
+				break
+			}
 			x.Violate("sender-deadlock", "data to send (%d bytes pending, %d in flight, %d tracked packets) but nothing in flight on the path, no pacing timer and no loss/PTO alarm: cwnd=%d CanSend=%v datagram=%d", s.pending, s.bif, s.nTracked, b.GetCongestionWindow(), b.CanSend(congestion.ByteCount(s.bif)), s.dgram)
 			break
 		}
@@ -1300,6 +1341,14 @@ func execC11(x *hysim.Run) {
 	}
 	if s.exhausted {
 		x.Probe("packet-budget-exhausted")
+		return
+	}
+	if s.closed {
+		return
+	}
+	if probeStall {
+		x.Probe("FINDING-mtu-probe-stall")
+		x.NonTrivial()
 		return
 	}
 	if !s.done() {
